@@ -511,20 +511,18 @@ impl<'a, F: Field> Sub<&'a SparsePolynomial<F>> for &DensePolynomial<F> {
             self.clone()
         } else {
             let mut result = self.clone();
-            // If `other` has higher degree than `self`, create a dense vector
-            // storing the upper coefficients of the subtraction
-            let mut upper_coeffs = match other.degree() > result.degree() {
-                true => vec![F::zero(); other.degree() - result.degree()],
-                false => Vec::new(),
-            };
+            // Process each term in `other`.
             for (pow, coeff) in other.iter() {
-                if *pow <= result.degree() {
-                    result.coeffs[*pow] -= coeff;
+                if let Some(target) = result.coeffs.get_mut(*pow) {
+                    *target -= coeff;
                 } else {
-                    upper_coeffs[*pow - result.degree() - 1] = -*coeff;
+                    // Extend with zeros if the power exceeds the current length.
+                    result.coeffs.resize(*pow, F::zero());
+                    result.coeffs.push(-*coeff);
                 }
             }
-            result.coeffs.extend(upper_coeffs);
+            // The leading terms may have cancelled.
+            result.truncate_leading_zeros();
             result
         }
     }
@@ -558,30 +556,18 @@ impl<'a, F: Field> SubAssign<&'a Self> for DensePolynomial<F> {
 impl<'a, F: Field> SubAssign<&'a SparsePolynomial<F>> for DensePolynomial<F> {
     #[inline]
     fn sub_assign(&mut self, other: &'a SparsePolynomial<F>) {
-        if self.is_zero() {
-            self.coeffs.truncate(0);
-            self.coeffs.resize(other.degree() + 1, F::zero());
-
-            for (i, coeff) in other.iter() {
-                self.coeffs[*i] = (*coeff).neg();
+        // Process each term in `other`.
+        for (pow, coeff) in other.iter() {
+            if let Some(target) = self.coeffs.get_mut(*pow) {
+                *target -= coeff;
+            } else {
+                // Extend with zeros if the power exceeds the current length.
+                self.coeffs.resize(*pow, F::zero());
+                self.coeffs.push(-*coeff);
             }
-        } else if other.is_zero() {
-        } else {
-            // If `other` has higher degree than `self`, create a dense vector
-            // storing the upper coefficients of the subtraction
-            let mut upper_coeffs = match other.degree() > self.degree() {
-                true => vec![F::zero(); other.degree() - self.degree()],
-                false => Vec::new(),
-            };
-            for (pow, coeff) in other.iter() {
-                if *pow <= self.degree() {
-                    self.coeffs[*pow] -= coeff;
-                } else {
-                    upper_coeffs[*pow - self.degree() - 1] = -*coeff;
-                }
-            }
-            self.coeffs.extend(upper_coeffs);
         }
+        // The leading terms may have cancelled.
+        self.truncate_leading_zeros();
     }
 }
 
